@@ -1,0 +1,5 @@
+//go:build !verif
+
+package logging
+
+func simCrit(msg string, ctx []interface{}) {}
